@@ -320,6 +320,77 @@ impl<MutexType: RawMutex> Drop for GenericSemaphoreReleaser''',
                         if available == 0 { return; }
                         self.waiters.remove_last();''',
      'expect': {'C07': ['C07.R4']}},
+    # ---------------------------------------------------------------- C16
+    {'name': 'revert-fix-D2', 'file': 'src/sync/mutex.rs', 'passes_suite': True,
+     'old': "unsafe impl<'a, MutexType: RawMutex + Sync, T: Send + 'a> Send",
+     'new': "unsafe impl<'a, MutexType: RawMutex + Sync, T: 'a> Send",
+     'expect': {'C16': ['C16.L2|GenericMutexLockFuture', 'C16.L1|mutex-lock-future']}},
+    {'name': 'revert-fix-D4', 'file': 'src/channel/mpmc.rs', 'passes_suite': True,
+     'old': '''    for GenericChannel<MutexType, T, A>
+where
+    A: RingBuf<Item = T> + Send,
+{
+}
+
+impl<MutexType: RawMutex, T, A> core::fmt::Debug''',
+     'new': '''    for GenericChannel<MutexType, T, A>
+where
+    A: RingBuf<Item = T>,
+{
+}
+
+impl<MutexType: RawMutex, T, A> core::fmt::Debug''',
+     'expect': {'C16': ['C16.L2|GenericChannel|Sync', 'C16.L1|channel[i32,rcbuf]']}},
+    {'name': 'channel-send-future-no-t-send', 'file': 'src/channel/channel_future.rs',
+     'old': '''unsafe impl<'a, MutexType: Sync, T: Send> Send
+    for ChannelSendFuture<'a, MutexType, T>''',
+     'new': '''unsafe impl<'a, MutexType: Sync, T> Send
+    for ChannelSendFuture<'a, MutexType, T>''',
+     'expect': {'C16': ['C16.L2|ChannelSendFuture', 'C16.L1|channel-send-future']}},
+    {'name': 'listnode-unpin', 'edits': [
+        {'file': 'src/intrusive_double_linked_list.rs',
+         'old': '''    /// the list semantics require addresses to be stable.
+    _pin: PhantomPinned,
+}''',
+         'new': '''    /// the list semantics require addresses to be stable.
+    _pin: core::marker::PhantomData<()>,
+}'''},
+        {'file': 'src/intrusive_double_linked_list.rs',
+         'old': '''            data,
+            _pin: PhantomPinned,''',
+         'new': '''            data,
+            _pin: core::marker::PhantomData,'''}],
+     'expect': {'C16': ['C16.L3', 'C16.L1']}},
+    {'name': 'nooplock-sync', 'file': 'src/noop_lock.rs',
+     'old': '''    _phantom: PhantomData<*mut ()>,''',
+     'new': '''    _phantom: PhantomData<()>,''',
+     'expect': {'C16': ['C16.L3', 'C16.L1|local']}},
+    {'name': 'guard-sync-without-t-sync', 'file': 'src/sync/mutex.rs',
+     'old': '''unsafe impl<MutexType: RawMutex, T: Sync> Sync
+    for GenericMutexGuard<'_, MutexType, T>''',
+     'new': '''unsafe impl<MutexType: RawMutex, T> Sync
+    for GenericMutexGuard<'_, MutexType, T>''',
+     'expect': {'C16': ['C16.L2|GenericMutexGuard', 'C16.L1|mutex-guard']}},
+    {'name': 'timer-future-send-from-local', 'file': 'src/timer/timer.rs',
+     'old': '''impl<MutexType: RawMutex> Timer for GenericTimerService<MutexType>
+where
+    MutexType: Sync,
+{''',
+     'new': '''impl<MutexType: RawMutex> Timer for GenericTimerService<MutexType>
+{''',
+     'expect': {'C16': ['C16.L2e|TimerFuture']}},
+    {'name': 'oneshot-sync-without-t-send', 'file': 'src/channel/oneshot.rs',
+     'old': '''unsafe impl<MutexType: RawMutex + Sync, T: Send> Sync
+    for GenericOneshotChannel<MutexType, T>''',
+     'new': '''unsafe impl<MutexType: RawMutex + Sync, T> Sync
+    for GenericOneshotChannel<MutexType, T>''',
+     'expect': {'C16': ['C16.L2|GenericOneshotChannel|Sync', 'C16.L1|oneshot[rc]']}},
+    {'name': 'shared-semaphore-unconditional-send', 'file': 'src/sync/semaphore.rs',
+     'old': '''    unsafe impl<MutexType: RawMutex + Sync> Send
+        for GenericSharedSemaphoreAcquireFuture<MutexType>''',
+     'new': '''    unsafe impl<MutexType: RawMutex> Send
+        for GenericSharedSemaphoreAcquireFuture<MutexType>''',
+     'expect': {'C16': ['C16.L2|GenericSharedSemaphoreAcquireFuture']}},
 ]
 
 BENIGN = []
